@@ -70,7 +70,7 @@ func (db *DB) handleSubscription(ctx context.Context, r *request.Request) (<-cha
 			s := subRequest.ToSelect(evt.DocID, evt.Cid.String())
 
 			result, err := p.RunSelection(ctx, s)
-			if err == nil && len(result) == 0 {
+			if err == nil && isEmptyDataset(result) {
 				txn.Discard(ctx)
 				continue // Don't send anything back to the client if the request yields an empty dataset.
 			}
@@ -91,4 +91,26 @@ func (db *DB) handleSubscription(ctx context.Context, r *request.Request) (<-cha
 	}()
 
 	return resCh, nil
+}
+
+// isEmptyDataset returns true if none of the selections of a result holds a document.
+//
+// A result maps every selection of the request to its list of documents, so that the result
+// of a request that yields no document is not an empty map.
+func isEmptyDataset(result map[string]any) bool {
+	for _, selection := range result {
+		switch docs := selection.(type) {
+		case []map[string]any:
+			if len(docs) > 0 {
+				return false
+			}
+		case []any:
+			if len(docs) > 0 {
+				return false
+			}
+		default:
+			return false
+		}
+	}
+	return true
 }
